@@ -203,6 +203,24 @@ fn multi(rep: &Reporter) {
             }
         }
     }
+    // every vector of length 1..=3 over {1, +inf, NaN, -inf}: rejected iff it contains NaN or -inf,
+    // wherever the illegal entry stands (also behind a legal +inf)
+    let h = [1.0, f64::INFINITY, f64::NAN, f64::NEG_INFINITY];
+    for len in 1..=3usize {
+        for code in 0..h.len().pow(len as u32) {
+            let mut c = code;
+            let v: Vec<f64> = (0..len).map(|_| { let x = h[c % 4]; c /= 4; x }).collect();
+            rep.case();
+            let illegal = v.iter().any(|x| !legal(*x));
+            let a = MultiObjective::try_from(v.clone()).is_ok();
+            let b = MultiObjective::try_from(v.as_slice()).is_ok();
+            if a == illegal || b == illegal {
+                let first_bad = v.iter().position(|x| !legal(*x));
+                let inf_before = first_bad.map(|p| v[..p].iter().any(|x| x.is_infinite())).unwrap_or(false);
+                rep.violation(&format!("multi:{}", if illegal { if inf_before { "accepts-illegal-entry-behind-a-legal-infinity" } else { "accepts-illegal-entry" } } else { "rejects-legal-vector" }), json!({"vector": format!("{v:?}"), "from_vec_ok": a, "from_slice_ok": b}));
+            }
+        }
+    }
     let mut vecs: Vec<Vec<f64>> = vec![vec![]];
     for len in 1..=3usize {
         for code in 0..g.len().pow(len as u32) {
